@@ -340,3 +340,15 @@ fn c03_bottom_alignment_empty_frame_then_println() {
     let s = term.contents();
     assert!(s.contains("log 1") && s.contains("log 2") && s.contains("log 3"), "{s:?}");
 }
+
+/// C01/C19: a line of double-width characters on a terminal with an odd number of columns wraps
+/// earlier than `columns / width` suggests; all of its rows must be erased by the next redraw.
+#[test]
+fn c19_double_width_text_wraps_character_by_character() {
+    let term = InMemoryTerm::new(12, 5);
+    let pb = bar(&term, "{msg}");
+    pb.set_message("日本語日本語"); // 12 columns: 2 characters per 5-column row -> 3 rows
+    assert_eq!(term.contents(), "日本\n語日\n本語");
+    pb.set_message("x");
+    assert_eq!(term.contents(), "x");
+}
